@@ -63,3 +63,20 @@ package spacepayloads
 //@   ensures [settings_cid]  err == nil ==> cidOK(payload.SpaceSettingsWithId.RawChange, payload.SpaceSettingsWithId.Id)
 //@   ensures [v0_same_space] err == nil && needCheckSpaceId ==> aclSpaceId == payload.SpaceHeaderWithId.Id && settingsSpaceId == payload.SpaceHeaderWithId.Id
 //@   ensures [settings_cite_acl_root] err == nil ==> aclHeadId == payload.AclWithId.Id
+
+// ---------------------------------------------------------------------------------------------
+// C13: a one-to-one space is DERIVED: both parties (and the same party later) must compute the same
+// header, settings root and space id from the two identities alone. The constructor therefore reads
+// neither the clock nor the random source (the create constructors do both, on purpose).
+//@ ghost clockReads Int stable
+//@ ghost randomReads Int stable
+//@ package time
+//@ func Now
+//@   modifies nothing
+//@   sets clockReads = clockReads + 1
+//@ package crypto/rand
+//@ func Read
+//@   sets randomReads = randomReads + 1
+//@ package github.com/anyproto/any-sync/commonspace/spacepayloads
+//@ func StoragePayloadForOneToOneSpaceWithType
+//@   ensures [derived_not_created] clockReads == old(clockReads) && randomReads == old(randomReads)
